@@ -357,6 +357,7 @@ def load_supplemental_sources(config, config_dir):
     """
     import csv
     from datetime import datetime
+    from .parsers import parse_amount
 
     data_sources = {}
 
@@ -436,13 +437,11 @@ def load_supplemental_sources(config, config_dir):
                                 row[field_name] = value
                         elif field_name in ('amount', 'item_amount', 'price', 'total', 'proceeds', 'costbasis', 'gainloss', 'grosspay', 'federal', 'state', 'socialsec', 'medicare', '401k', 'hsa', 'netpay', 'shares'):
                             try:
-                                # Handle decimal separator
+                                # Read like the amounts of a transaction source: decimal
+                                # separator, thousands separators ("1.234,56"), currency
+                                # symbols, parentheses
                                 decimal_sep = source.get('decimal_separator', '.')
-                                if decimal_sep != '.':
-                                    value = value.replace(decimal_sep, '.')
-                                # Remove currency symbols
-                                value = value.replace('$', '').replace(',', '').strip()
-                                row[field_name] = float(value) if value else 0.0
+                                row[field_name] = parse_amount(value, decimal_sep) if value else 0.0
                             except ValueError:
                                 row[field_name] = 0.0
                         else:
